@@ -17,6 +17,15 @@ def check(run, only=None):
     else:
         r = common.run_tlc("C17", "C17_thorough" if run.tier == "thorough" else "C17", env={"VERIF_SEED": run.seed}, timeout=1800)
         vecs = r["lines"]
+    if only is None:
+        # seeded random programs (harness generator `exec`) go through the same fault enumeration; the reference output is
+        # computed by TLC from the AST in the trace, programs outside the model are dropped there
+        rnd = common.run_gen("exec", 3000 if run.tier == "thorough" else 150, run.seed * 1000 + 17, run.tier)
+        for c in rnd:
+            c["k"] = "faults"
+            c["fam"] = "random-program"
+            c["exp"] = {"status": "?"}
+        vecs = vecs + rnd
     progs = [v for v in vecs if not v.get("oom")]
     run.oom += len(vecs) - len(progs)
     send = [{k: x for k, x in v.items() if k != "exp"} for v in progs]
